@@ -27,30 +27,30 @@ func init() {
 }
 
 type concTxn struct {
-	idx     int
-	writer  int
-	spec    TxnSpec
-	ops     []Op
-	marker  string
-	call    *RawCall
-	res     []ActRes
-	failed  bool
-	commit  int // 1-based commit number, 0 if none
-	kind    string
+	idx    int
+	writer int
+	spec   TxnSpec
+	ops    []Op
+	marker string
+	call   *RawCall
+	res    []ActRes
+	failed bool
+	commit int // 1-based commit number, 0 if none
+	kind   string
 }
 
 type s2 struct {
-	e       *Env
-	cfg     *RunCfg
-	srv     *ServerInst
-	db      string
-	writers []*RawPeer
-	queue   [][]int // per writer: indexes into txns
-	busy    []*concTxn
-	txns    []*concTxn
-	obs     []*observer
+	e           *Env
+	cfg         *RunCfg
+	srv         *ServerInst
+	db          string
+	writers     []*RawPeer
+	queue       [][]int // per writer: indexes into txns
+	busy        []*concTxn
+	txns        []*concTxn
+	obs         []*observer
 	counterRows []string
-	uniqName string
+	uniqName    string
 }
 
 func cfgS2(prop string, seed uint64, tier string) *RunCfg {
